@@ -24,6 +24,7 @@ import irispie as ir
 from .common import Ctx, Rng, rat_of_float, VERIF
 
 DRIVERS = ["C07"]
+EXTRA_PROPS = ['BridgeC07']   # refinement bridge from the executable QMat model to the matrix-level theorems (audited with this check)
 LEVEL = "proof"
 MANIFEST = {
     "category": "proof",
